@@ -68,6 +68,17 @@ fn main() {
             let count: usize = args.get(3).and_then(|s| s.parse().ok()).unwrap_or(100);
             ohv::pyoracle::gen_exprs(seed, count);
         }
+        Some("geo-stats") => {
+            let t = std::time::Instant::now();
+            let g = ohv::geo::geo();
+            println!("zone pairs {} country pairs {} junctions {} lookups {} in {:?}", g.zone_pairs.len(), g.country_pairs.len(), g.junctions.len(), g.lookups, t.elapsed());
+            for j in g.junctions.iter().take(40) {
+                println!("  junction {:?} none points {:?}", j.countries, &j.none_points[..j.none_points.len().min(2)]);
+            }
+            for p in g.zone_pairs.iter().take(5) {
+                println!("  zone pair {:?} {} | {}", p, ohv::geo::tz_of(p.0), ohv::geo::tz_of(p.1));
+            }
+        }
         Some("list") => {
             for p in props::all() {
                 let subs: Vec<&str> = p.subs.iter().map(|s| s.name).collect();
